@@ -261,6 +261,7 @@ pub trait ConstructorArgs {
 }
 macro_rules! tuples { ($( ($a:expr; $($n:ident $i:tt),+) )+) => { $(
     impl<$($n: IntoVal<Env, Val>),+> IntoVal<Env, Val> for ($($n,)+) { fn into_val(&self, e: &Env) -> Val { let mut o = Buf::new(); o.push(0xE0 + $a); $( self.$i.into_val(e).ser(&mut o); )+ Val::bufv(T_SER, o) } }
+    impl<$($n: IntoVal<Env, Val>),+> IntoVal<Env, Vec<Val>> for ($($n,)+) { fn into_val(&self, e: &Env) -> Vec<Val> { let mut v = Vec::new(e); $( v.push_back(self.$i.into_val(e)); )+ v } }
     impl<$($n: IntoVal<Env, Val>),+> Topics for ($($n,)+) { fn ser_topics(&self, e: &Env, o: &mut Buf) { o.push($a); $( self.$i.into_val(e).ser(o); )+ } }
     impl<$($n: IntoVal<Env, Val>),+> ConstructorArgs for ($($n,)+) { fn ser_args(&self, e: &Env, o: &mut Buf) { o.push($a); $( self.$i.into_val(e).ser(o); )+ } }
 )+ } }
